@@ -151,7 +151,9 @@ pub fn c02_step(st: &mut C02State, pre: &StoreSnap, post: &StoreSnap, step: &Ste
         // a failed transaction must leave the ledger untouched
         return out;
     }
-    let closing_op = matches!(step.op, Op::CloseBalance { .. } | Op::CloseAccount { .. });
+    // every instruction that closes a position abandons that slot's sub-dust residue (the other
+    // side of a withdraw_all / repay_all, or both sides of close_balance / account close)
+    let closing_op = matches!(step.op, Op::CloseBalance { .. } | Op::CloseAccount { .. } | Op::Withdraw { all: true, .. } | Op::Repay { all: true, .. } | Op::Flash { repay: true, .. });
     for (k, b1) in &post.banks {
         let Some(b0) = pre.banks.get(k) else { continue };
         let (sa0, sl0) = sums_of(pre, k);
@@ -187,7 +189,7 @@ pub fn c02_step(st: &mut C02State, pre: &StoreSnap, post: &StoreSnap, step: &Ste
                 st.closures += 1;
                 st.max_abandoned_value = st.max_abandoned_value.max(q_f64(&va)).max(q_f64(&vl));
                 let (lim_a, lim_l, what) = match step.op {
-                    Op::CloseBalance { .. } => (threshold_0001(), threshold_0001(), "0.0001 units"),
+                    Op::CloseBalance { .. } | Op::Withdraw { .. } | Op::Repay { .. } | Op::Flash { .. } => (threshold_0001(), threshold_0001(), "0.0001 units"),
                     // account close: each slot's residue must be an empty position (< 1 share)
                     _ => (q_int(16) * q_max(q_one(), b1.asv.clone()), q_int(16) * q_max(q_one(), b1.lsv.clone()), "1 share per slot"),
                 };
@@ -373,8 +375,8 @@ pub fn c16_step(st: &mut C16State, pre: &StoreSnap, post: &StoreSnap, step: &Ste
                     if oo.flags & ACCOUNT_DISABLED == 0 {
                         out.push(finding("structure:transfer-old-not-disabled", format!("op#{}: old account not disabled after transfer", step.index)));
                     }
-                    if po.flags & ACCOUNT_DISABLED != 0 {
-                        out.push(finding("structure:transfer-twice", format!("op#{}: a disabled (already migrated/bankrupt) account was transferred", step.index)));
+                    if po.raw.migrated_to != Pubkey::default() || st.transferred.contains_key(&old) {
+                        out.push(finding("structure:transfer-twice", format!("op#{}: an already migrated account was transferred again", step.index)));
                     }
                     st.transferred.insert(old, new);
                 }
